@@ -10,6 +10,7 @@ TERM  = ["v", name] | ["attr", TERM, field] | ["idx", TERM, i] | ["call", TERM, 
 COND  = ["cmp", TERM, op, TERM] | ["in", TERM item, TERM container] | ["and", COND...] | ["or", COND...]
         | ["not", COND] | ["fp", name, [TERM...]] | ["cp", name, [TERM...]] | ["forall", TERM, COND]
         | ["nest", var name, [COND...]] | ["ht", TERM, class name]
+        | ["sub", var name, [COND...], sub id]   (like nest, but ONE object per sub id and pool, reused by every query)
 RULE  = {"add": [class, {field: TERM}], "children": [{"kind": refinement|alternative|next, "conds": [COND...],
          "node": RULE}]}
 """
@@ -47,6 +48,7 @@ class Pool:
         self.queries: Dict[str, Any] = {}
         self.streams: Dict[str, Any] = {}      # var name -> OneShot / LoggingCollection (pull logs)
         self.built_conds: Dict[str, list] = {}
+        self.subqueries: Dict[str, Any] = {}   # sub id -> the one sub-query OBJECT shared by the queries using it
         self.kind_override = domain_kinds       # twin pools use plain list copies
         self.stream_faults = stream_faults or {}
         try:
@@ -165,6 +167,11 @@ class Pool:
             return for_all(self.term(c[1]), self.cond(c[2]))
         if k == "nest":
             return an(entity(self.vars[c[1]], *[self.cond(x) for x in c[2]]))
+        if k == "sub":
+            # a reusable sub-query object (allowed = an(entity(tool, ...)) used as a conjunct of several queries)
+            if c[3] not in self.subqueries:
+                self.subqueries[c[3]] = an(entity(self.vars[c[1]], *[self.cond(x) for x in c[2]]))
+            return self.subqueries[c[3]]
         raise BuildError(f"cond {k}")
 
     # ------------------------------------------------------------------ queries
